@@ -74,7 +74,8 @@ def f_copyright(rng):
 
 
 CONTACTS = ['John Doe <john@example.org>', 'Jane Roe <jane@example.org>, J. Hacker <j@x.org>', 'http://example.org/contact', 'John Doe <john@example.org> ,',
-            'a@b,,', 'Team  Name   <t@x.org>', '"Doe, John" <jd@x.org>', 'Jöhn <j@x.org> (remark)', 'unclosed <a@b', ', leading comma', 'x;y', 'mailto:a@b']
+            'a@b,,', 'Team  Name   <t@x.org>', '"Doe, John" <jd@x.org>', 'Jöhn <j@x.org> (remark)', 'unclosed <a@b', ', leading comma', 'x;y', 'mailto:a@b',
+            '"Johnny \\"The Fox\\" Doe" <johnny@example.org>', '"\\"Q\\"" <q@x.org>', 'A (a \\(nested\\) c) <a@x.org>', '"a\\\\b" <c@d>', 'Build Daemon <buildd>']
 
 
 def f_lines(rng, label):
